@@ -1660,6 +1660,10 @@ class Scheduler:
 
         pending_job = self._pending_jobs.get((job.eval_hash, job.context_hash))
         if pending_job:
+            if job.recording_provenance() and not pending_job.recording_provenance():
+                # The pending job will not record a CallNode, so a job that records provenance
+                # cannot take its call_hash from it.
+                return None
             job.collapse(pending_job)
             return pending_job
 
